@@ -211,7 +211,7 @@ def d1_d2_ragged(ctx, committer, a_regen, r_regen):
             ctx.decide(must_follow(f, rnode, regens), 'R-POST', 'D1', f, rnode, 'readme-after-replacement',
                        f'{f.qualname}: README regeneration follows the replacement of a sub-array',
                        detail='sub-array replaced without regenerating the top-level README')
-    ctx.floor('C08 ragged state-change sites', nsites, 12)
+    ctx.floor('C08 ragged state-change sites', nsites, 8)
 
 
 def d3_single_source(ctx):
@@ -311,7 +311,7 @@ def d4_metadata(ctx, a_regen):
                 ctx.decide(bool(cbs) and must_follow(f, e.node, cbs), 'R-POST', 'D4', f, e.node, f'callback-after-unlink::{f.name}',
                            f'MetaData.{f.name}: the callback follows the removal of metadata.json',
                            detail='metadata.json removed without refreshing the README')
-    ctx.floor('C08 metadata callback sites', n, 3)
+    ctx.floor('C08 metadata callback sites', n, 2)
 
 
 def d5_thresholds(ctx):
